@@ -457,11 +457,26 @@ def valid(L, nv):
     return all(i < nv for i in idx)
 
 
-def run_history(cls, faces, coef, letters, mirror=False):
+def first_variable(m, g, init, form):
+    """the documented constructor forms of the initial variable: interior-shaped array, array including the ghost layer
+    (the caller's ghost values are arbitrary: they are not part of the visible state), either one stored as integers"""
+    if form == 'interior':
+        return pf.CellVariable(m, init.copy())
+    if form == 'interior-int':
+        return pf.CellVariable(m, init.astype(np.int64))
+    full = np.zeros(g.full_shape())
+    full[...] = 7.0
+    full[tuple(slice(1, -1) for _ in range(g.nd))] = init
+    if form == 'with-ghosts-int':
+        return pf.CellVariable(m, full.astype(np.int64))
+    return pf.CellVariable(m, full)
+
+
+def run_history(cls, faces, coef, letters, mirror=False, init_form='interior'):
     W = World(cls, faces, coef, mirror=mirror)
     W.nrec = 1
     W.recs[1] = new_record(W.g)
-    v0 = pf.CellVariable(W.m, coef['init'].copy())
+    v0 = first_variable(W.m, W.g, coef['init'], init_form)
     W.add_var(coef['init'], 1, v0)
     done = []
     try:
@@ -530,9 +545,12 @@ def run_case(case):
                 slot = L[-1] if L[0] != 'share' else L[2]
                 if slot >= nlive:
                     nlive += 1
-    fail, W, done = run_history(cls, faces, coef, letters)
+    init_form = case.get('init_form', 'interior')
+    if init_form.endswith('-int'):
+        coef['init'] = np.round(coef['init'] * 3.0)          # whole numbers, so that the integer-typed forms hold the same values
+    fail, W, done = run_history(cls, faces, coef, letters, init_form=init_form)
     names = [abstract(L) for L in done]
-    cov = {'histories:%s' % case['kind']: 1, 'letters': len(done), 'visible_state_checks': W.events, 'solve_comparisons': W.solves, 'cls:' + cls: 1}
+    cov = {'init_form:' + init_form: 1, 'histories:%s' % case['kind']: 1, 'letters': len(done), 'visible_state_checks': W.events, 'solve_comparisons': W.solves, 'cls:' + cls: 1}
     for nme in set(names):
         cov['letter:' + nme.split('.')[0]] = 1
     key = '%s/%s/%s' % (cls, [len(f) - 1 for f in faces], '>'.join(names))
@@ -545,7 +563,7 @@ def run_case(case):
     mech = fail.mech
     if any(L[0] in ('share', 'explicit-keep') for L in done):
         # discriminating condition of the known finding: same history with sharing replaced by deep-copy-and-mirror passes
-        fail2, W2, _ = run_history(cls, faces, coef, letters, mirror=True)
+        fail2, W2, _ = run_history(cls, faces, coef, letters, mirror=True, init_form=init_form)
         if fail2 is None:
             mech = KEY_SHARED
     return {'verdict': 'violated', 'mech': mech, 'key': key, 'cov': cov, 'nontrivial': True,
@@ -577,7 +595,8 @@ def plan(tier, seed):
         chunks.append(cases[j:j + step])
     per = 25 if tier == 'quick' else 1200
     for ci, cls in enumerate(CLASSES):
-        rc = [{'kind': 'random', 'cls': cls, 'seed': [seed, 9, 100 + ci, i]} for i in range(per)]
+        rc = [{'kind': 'random', 'cls': cls, 'seed': [seed, 9, 100 + ci, i],
+               'init_form': ['interior', 'with-ghosts', 'interior', 'with-ghosts-int', 'interior-int'][i % 5]} for i in range(per)]
         st = 25 if NDIM[cls] < 3 else 13
         for j in range(0, len(rc), st):
             chunks.append(rc[j:j + st])
@@ -592,6 +611,9 @@ def floors(agg, tier):
     for k, need in (('histories:exhaustive', 3000), ('histories:random', 200), ('solve_comparisons', 5000), ('visible_state_checks', 10000)):
         if agg['cov'].get(k, 0) < need:
             out.append('%s < %d' % (k, need))
+    for fm in ('interior', 'with-ghosts', 'with-ghosts-int', 'interior-int'):
+        if agg['cov'].get('init_form:' + fm, 0) < 20:
+            out.append('init_form:%s < 20' % fm)
     for nm in ('bc', 'fixedValue', 'fixedGradient', 'newtonCooling', 'defaultNoFlux', 'periodic', 'value', 'update_value', 'copy', 'arith', 'share', 'apply', 'solve', 'explicit', 'explicit-keep'):
         if agg['cov'].get('letter:' + nm, 0) < 5:
             out.append('letter:%s < 5' % nm)
